@@ -21,3 +21,31 @@ pub proof fn lemma_str_eq(a: String, b: String)
 // a vector of a non-zero-sized element type holds at most isize::MAX elements (Rust allocation limit)   TRUSTED
 pub axiom fn axiom_vec_len<T>(v: Vec<T>)
     ensures v@.len() <= 0x7fff_ffff_ffff_ffff;
+
+// vectors as values: vec_of is the inverse of the view (every vector is determined by its elements)   TRUSTED
+pub uninterp spec fn vec_of<T>(s: Seq<T>) -> Vec<T>;
+pub broadcast axiom fn axiom_vec_canon<T>(v: Vec<T>)
+    ensures #[trigger] vec_of(v@) == v;
+pub broadcast axiom fn axiom_vec_of_view<T>(s: Seq<T>)
+    ensures s.len() <= usize::MAX ==> (#[trigger] vec_of(s))@ == s;
+
+pub proof fn lemma_vec_eq<T>(a: Vec<T>, b: Vec<T>)
+    requires a@ == b@
+    ensures a == b
+{
+    axiom_vec_canon(a);
+    axiom_vec_canon(b);
+}
+// extensionality as broadcast (multi-pattern on the two views); consequences of the canon axioms above
+pub broadcast proof fn lemma_str_ext_b(a: String, b: String)
+    ensures #[trigger] a@ == #[trigger] b@ ==> a == b
+{
+    axiom_str_canon(a);
+    axiom_str_canon(b);
+}
+pub broadcast proof fn lemma_vec_ext_b<T>(a: Vec<T>, b: Vec<T>)
+    ensures #[trigger] a@ == #[trigger] b@ ==> a == b
+{
+    axiom_vec_canon(a);
+    axiom_vec_canon(b);
+}
